@@ -468,3 +468,21 @@ V("c15-day31", "C15", "M", DCD, '    return datetime.datetime.strptime(value, "%
 V("c15-eq-date-by-parts", "C15", "E", DCD, '    return datetime.datetime.strptime(value, "%y%m%d")', '    return datetime.datetime(2000 + int(value[:2]), int(value[2:4]), int(value[4:6]))')
 V("c14-first-error-only", "C14", "M", SUM, "            errors[lineno] = e\n", "            errors = {lineno: e}\n", "C14-S")
 V("c20-factor-int", "C20", "M", DTY, "        return obj * self.factor", "        return int(obj) * self.factor", "C20-P5")
+
+# ---------------------------------------------------------------- fourth phase: E10 (open_image), E11 (cache codec), round-4 rules
+V("c08-path-falsy", ["C08", "C07"], "M", HIE, "        if self.path is None:\n", "        if not self.path:\n", "K8")
+V("c08-sort-keys", ["C08", "C07"], "M", CAC, "    return json.dumps(preprocess(encoded))", "    return json.dumps(preprocess(encoded), sort_keys=True)", "K8")
+V("c08-unit-multiplier-dropped", "C08", "M", ENC, "    if count != 1:\n        units = f\"{count}{units}\"\n", "", "datetime64[25us]")
+V("c08-tuple-untagged", ["C08", "C07"], "M", ENC, '        return {"__type__": "tuple", "data": list(map(preprocess, data))}', "        return list(map(preprocess, data))", "K")
+V("c08-eq-listcomp", ["C08", "C07", "C10"], "E", ENC, "        return list(map(preprocess, data))\n    elif isinstance(data, tuple)", "        return [preprocess(item) for item in data]\n    elif isinstance(data, tuple)")
+V("c08-eq-postprocess-local", ["C08", "C07"], "E", DEC, '        return tuple(obj["data"])', '        items = obj["data"]\n        return tuple(items)')
+V("c08-eq-indent", ["C08", "C07"], "E", CAC, "    return json.dumps(preprocess(encoded))", "    return json.dumps(preprocess(encoded), indent=None, separators=(\",\", \":\"))")
+V("c10-encoder-in-place", ["C10", "C07"], "M", ENC, "        return list(map(preprocess, data))\n    elif isinstance(data, tuple)", "        data[:] = map(preprocess, data)\n        return data\n    elif isinstance(data, tuple)", "C10-W")
+V("c10-encoder-pops-attrs", ["C10", "C07"], "M", ENC, "    encoded_data = encode_array(var.data)\n", "    encoded_data = encode_array(var.data)\n    var.attrs.pop(\"_cache\", None)\n", "C10-W8")
+V("c07-recreate-bypasses-cache", "C07", "M", SII, "    if use_cache:\n", "    if use_cache and not create_cache:\n", "G8")
+V("c10-write-on-use", "C10", "M", SII, "    if create_cache:\n", "    if create_cache or use_cache:\n", "W6")
+V("c14-summary-sorted-in-place", ["C14", "C13"], "M", IOO, "    # read actual imagery\n", "    filenames[\"sar_imagery\"].sort()\n    # read actual imagery\n", "summary")
+V("c20-binary-spare-as-text", "C20", "M", PRO, '"blanks1" / StripNullBytes(Bytes(20))', '"blanks1" / PaddedString(20)', "C20-P1",
+  more=[(PRO, "from ceos_alos2.datatypes import DatetimeYdms, Factor, Metadata, StripNullBytes", "from ceos_alos2.datatypes import DatetimeYdms, Factor, Metadata, PaddedString, StripNullBytes")])
+V("c06-chunks-whole-image", "C06", "M", ARR, "        return (self.records_per_chunk, *self.shape[1:])", "        return tuple(self.shape)", "Q10")
+V("c06-eq-chunks-spelled", "C06", "E", ARR, "        return (self.records_per_chunk, *self.shape[1:])", "        rows = self.records_per_chunk\n        return (rows,) + tuple(self.shape[1:])")
